@@ -28,17 +28,35 @@ Theorem C18_terminates :
 Proof. exact pmap_terminates. Qed.
 Print Assumptions C18_terminates.
 
-(* when a future raises and ends the generator, the results yielded before it are still results of
-   pairwise different tasks (ys ++ t :: others is a permutation of the task list) *)
+(* when a future raises and ends the generator (re-raised, or swallowed after a KeyboardInterrupt), the
+   results yielded before it are still results of pairwise different tasks (ys ++ t :: others is a
+   permutation of the task list) and the exception is the one of a task *)
 Theorem C18_abort_no_dup :
   forall (T R E : Type) (process : T -> tres R E) (ki : E -> bool)
-         (procpool : bool) (max_workers : nat) (tasks : list T) (sched : list nat) (e : E),
-  fst (executor_pmap T R E process ki procpool max_workers tasks sched) = Raised e ->
-  exists ys t others, Permutation (ys ++ t :: others) tasks
+         (procpool : bool) (max_workers : nat) (tasks : list T) (sched : list nat),
+  fst (executor_pmap T R E process ki procpool max_workers tasks sched) <> Done ->
+  exists e ys t others,
+    Permutation (ys ++ t :: others) tasks
     /\ map process ys = map Res (out (snd (executor_pmap T R E process ki procpool max_workers tasks sched)))
-    /\ process t = Fail e.
+    /\ process t = Fail e
+    /\ fst (executor_pmap T R E process ki procpool max_workers tasks sched)
+       = (if ki e then Interrupted else Raised e).
 Proof. exact pmap_abort_no_dup. Qed.
 Print Assumptions C18_abort_no_dup.
+
+(* bounded submission window of the process-pool mode: every as_completed snapshot holds at most
+   1 + (max_workers or 8) futures and every refill happens with at most that many minus one pending *)
+Theorem C18_window_bound :
+  forall (T R E : Type) (process : T -> tres R E) (ki : E -> bool)
+         (max_workers : nat) (tasks : list T) (sched : list nat),
+  Forall (fun e => match e with
+                   | ESnap l => length l <= window max_workers
+                   | ESubmit _ l => S (length l) <= window max_workers
+                   | _ => True
+                   end)
+         (evs (snd (executor_pmap T R E process ki true max_workers tasks sched))).
+Proof. exact pmap_window_bound. Qed.
+Print Assumptions C18_window_bound.
 
 (* parproc() with taskproc: every mode (single-task shortcut, sequential, process pool, thread pool),
    every max_workers / cpu_count and every schedule *)
